@@ -203,7 +203,16 @@ impl Matcher {
 
     /// Sort transactions by date and merge same-day same-ticker buys/sells.
     fn preprocess(&self, mut transactions: Vec<GbpTransaction>) -> Vec<GbpTransaction> {
-        transactions.sort_by(|a, b| a.date.cmp(&b.date));
+        // A SPLIT/UNSPLIT takes effect at the start of its day, wherever its line stands in the
+        // input: the day's trades are in post-split units (docs/spec.md, "Split then same-day
+        // sell"). The sort is stable, so other lines of a day keep their input order.
+        transactions.sort_by_key(|tx| {
+            let is_trade_or_event = !matches!(
+                tx.operation,
+                Operation::Split { .. } | Operation::Unsplit { .. }
+            );
+            (tx.date, is_trade_or_event)
+        });
 
         let mut merged = Vec::new();
         if transactions.is_empty() {
@@ -349,6 +358,20 @@ impl Matcher {
                 day_end += 1;
             }
 
+            // Apply splits/unsplits first: the day's trades and later disposals are in current units
+            for tx in &transactions[i..day_end] {
+                let factor = match &tx.operation {
+                    Operation::Split { ratio } => *ratio,
+                    Operation::Unsplit { ratio } if *ratio != Decimal::ZERO => {
+                        Decimal::ONE / *ratio
+                    }
+                    _ => continue,
+                };
+                if let Some(ledger) = ledgers.get_mut(&tx.ticker) {
+                    ledger.rescale(factor);
+                }
+            }
+
             // Apply corporate actions for the day (before same-day buys)
             for tx in &transactions[i..day_end] {
                 match &tx.operation {
@@ -420,20 +443,6 @@ impl Matcher {
                     } else {
                         ledger.consume_shares_before_date(tx.date, *amount);
                     }
-                }
-            }
-
-            // Apply splits/unsplits so that later disposals consume lots in current units
-            for tx in &transactions[i..day_end] {
-                let factor = match &tx.operation {
-                    Operation::Split { ratio } => *ratio,
-                    Operation::Unsplit { ratio } if *ratio != Decimal::ZERO => {
-                        Decimal::ONE / *ratio
-                    }
-                    _ => continue,
-                };
-                if let Some(ledger) = ledgers.get_mut(&tx.ticker) {
-                    ledger.rescale(factor);
                 }
             }
 
